@@ -45,7 +45,7 @@ func fieldSets(thorough bool) sets {
 		// spellings parse as IP addresses but are not what a canonicalising formatter would print
 		addrs:    []string{"1.2.3.4", "::1", "fe80::1%eth0", "2001:db8::ffff:1.2.3.4", "host.example.com", "FE80::0001", "0:0:0:0:0:0:0:1", "::ffff:a00:1"},
 		ports:    []string{"0", "22", "65535"},
-		keytypes: []string{"RSA", "DSA", "ECDSA", "ED25519", "ECDSA-SK", "ED25519-SK", "XMSS"},
+		keytypes: []string{"RSA", "DSA", "ECDSA", "ED25519", "ECDSA-SK", "ED25519-SK", "XMSS", "WEBAUTHN-SK-ECDSA"},
 		fps:      []string{"SHA256:YI+caZKJCNaXgsD0NvRZ2fLaEeF46cEVyadru/SL76o", "MD5:aa:bb:cc:dd:ee:ff:00:11:22:33:44:55:66:77:88:99"},
 		keyids:   []string{"k", "a b", "x (serial 7)", "serial", "ID y", "(z) CA q", "foo@bar.com", "two  blanks"},
 		serials:  []string{"0", "18446744073709551615"},
@@ -60,7 +60,7 @@ func fieldSets(thorough bool) sets {
 		s.users = []string{"a", "a.b-c_d@e$", "ユーザー", "dep#012loy"}
 		s.addrs = []string{"1.2.3.4", "fe80::1%eth0", "host.example.com", "FE80::0001"}
 		s.ports = []string{"0", "65535"}
-		s.keytypes = []string{"RSA", "ED25519", "ECDSA-SK"}
+		s.keytypes = []string{"RSA", "ED25519", "ECDSA-SK", "XMSS"}
 		s.keyids = []string{"k", "a b", "x (serial 7)", "ID y", "two  blanks"}
 	}
 	return s
